@@ -47,9 +47,17 @@ Update(s, sp, j) ==
         /\ ok' = (ok /\ \A x \in Alive(r3, tick) : MinSp(r3) <= r3[x].sp)
   /\ UNCHANGED tick
 
+(* the administrator's removal (HTTP DELETE /gc/safepoint/{service}): the storage-level removal, no pruning; the garbage
+   collector's own entry cannot be removed this way either *)
+Delete(s) ==
+  /\ ops < MaxOps /\ ops' = ops + 1 /\ GC \in DOMAIN reg
+  /\ reg' = IF s = GC THEN reg ELSE Drop(reg, {s})
+  /\ UNCHANGED <<tick, lastMin, ok>>
+
 Tick == tick < MaxTick /\ tick' = tick + 1 /\ UNCHANGED <<reg, ops, lastMin, ok>>
 
 Next == \/ \E s \in All, sp \in 0..MaxSp, j \in (-1)..(MaxTtl + 1) : Update(s, sp, j)
+        \/ \E s \in All : Delete(s)
         \/ Tick
 Spec == Init /\ [][Next]_vars
 
